@@ -227,10 +227,11 @@ def build_optimized_pattern(choices: list[ChoiceChoice], repeat: str = "") -> st
             case ChoiceLiteral(value=val, case=ChoiceCase.INSENSITIVE) if (
                 len(val) == 1 and len(val.upper()) == 1 and len(val.lower()) == 1
             ):
-                char_class_parts.append(val.upper())
-                char_class_parts.append(val.lower())
+                # Like pest, only ASCII letters match case insensitively.
+                char_class_parts.append(val.upper() if val.isascii() else val)
+                char_class_parts.append(val.lower() if val.isascii() else val)
             case ChoiceLiteral(value=val, case=ChoiceCase.INSENSITIVE):
-                insensitive_parts.append(f"(?i:{re.escape(val)})")
+                insensitive_parts.append(f"(?ai:{re.escape(val)})")
             case ChoiceLiteral(value=val, case=ChoiceCase.SENSITIVE) if len(val) == 1:
                 char_class_parts.append(val)
             case ChoiceLiteral(value=val, case=ChoiceCase.SENSITIVE):
